@@ -1362,7 +1362,7 @@ impl Part for LongRuns {
         "E2c-long-runs".into()
     }
     fn rule(&self) -> String {
-        "one live receiver context is handed n rejected deliveries (tampered, short, wrong aad, garbage, future, replay - both APIs) and must then still accept exactly the next genuine message with its counter unmoved; one live sender/receiver pair exchanges n messages in a row, every ciphertext compared with R1 and the counters read back at the end; n is above 2^16 so that an 8- or 16-bit bookkeeping counter would wrap (overflow checks are on in the primary build)".into()
+        "one live receiver context is handed n rejected deliveries (tampered, short, wrong aad, garbage, future, replay - both APIs) and must then still accept exactly the next genuine message with its counter unmoved; one live sender/receiver pair exchanges n messages in a row, every ciphertext compared with R1 and the counters read back at the end; n is chosen so that every delivery kind that reaches tag verification alone is seen more than 2^16 times in total (a few kinds are rejected on length before that), so an 8- or 16-bit bookkeeping counter would wrap (overflow checks are on in the primary build)".into()
     }
     fn bound(&self, _cfg: &Cfg) -> String {
         format!("{} rejected deliveries / {} accepted messages per context, {} suites, 2 start positions", self.n_fail, self.n_ok, self.suites.len())
